@@ -128,6 +128,7 @@ def cases(tier, seed):
                 for sized in (False, True):
                     yield ("passive", name, (kind, str(model), sized))
         yield ("sizes", name, None)
+        yield ("history", name, None)
         yield ("dispatch", name, None)
 
 
@@ -219,27 +220,95 @@ def check_case(case):
             call = prim3(**kw)
         return compile_and_check(call, acc, depth=1)
     if kind == "sizes":
-        # given sizes are passed through, absent sizes take a default
+        # given sizes are passed through, absent sizes take the PDK's default - each of w and l on its own
         req = dict(tp=MosType.NMOS, family=MosFamily.CORE, vth=MosVth.STD)
-        for given in (False, True):
-            kw = dict(req)
-            if given:
-                kw.update(w=3 * h.prefix.µ, l=2 * h.prefix.µ)
-            call = h.Mos(**kw)
-            if not P["mos"](call.params):
-                return None
-            top = design(call, depth=1, shared=False)
+        subjects = [("mos", lambda **kw: h.Mos(**req, **kw), lambda c: bool(P["mos"](c.params)))]
+        for pk, prim in (("res", h.primitives.PhysicalResistor), ("cap", h.primitives.PhysicalCapacitor)):
+            table = P["passives"].get(pk) or {}
+            two = [k for k, v in table.items() if len(v.ports) == 2]
+            if two:
+                subjects.append((pk, lambda prim=prim, key=two[0], **kw: prim(model=key, **kw), lambda c: True))
+        W_, L_ = 3 * h.prefix.µ, 2 * h.prefix.µ
+        for sname, mk, ok in subjects:
+            seen = {}
+            for given in ((), ("w", "l"), ("w",), ("l",)):
+                kw = {}
+                if "w" in given:
+                    kw["w"] = W_
+                if "l" in given:
+                    kw["l"] = L_
+                try:
+                    call = mk(**kw)
+                except Exception:
+                    break
+                if not ok(call):
+                    break
+                top = design(call, depth=1, shared=False)
+                try:
+                    P["compile"](top)
+                except Exception as e:
+                    return (f"{pname}.sizes.raises", f"{case!r}: {sname} {given}: {type(e).__name__}: {str(e)[:100]}", w)
+                dev = [t for pth, t in leaf_targets(top).items() if pth[-1] == "dev"][0]
+                prm = dev.params
+                getp = (lambda n: prm.get(n)) if isinstance(prm, dict) else (lambda n: getattr(prm, n, None))
+                seen[given] = (getp("w"), getp("l"))
+                if not given and pname != "asap7" and sname == "mos" and (getp("w") is None or getp("l") is None):
+                    return (f"{pname}.sizes.default", f"{case!r}: defaulted size missing", w)
+            if () not in seen or ("w", "l") not in seen:
+                continue
+            dw, dl = seen[()]
+            gw, gl = seen[("w", "l")]
+            if sname == "mos" and (gw != W_ or gl != L_):
+                return (f"{pname}.sizes.given", f"{case!r}: given w/l not passed through: w={gw}, l={gl}", w)
+            # one of the two given: that one as when both are given, the other as when neither is
+            for given, want in ((("w",), (gw, dl)), (("l",), (dw, gl))):
+                if given in seen and seen[given] != want:
+                    return (f"{pname}.sizes.one-given", f"{case!r}: {sname} with only {given[0]} given is sized "
+                                                        f"(w, l) = {seen[given]}, expected {want} (given value / PDK default)", w)
+        return None
+    if kind == "history":
+        # earlier walks of the same design objects leave no trace: a read-only user walker before compile, and a compile
+        # with another PDK that refused the design
+        req = dict(tp=MosType.NMOS, family=MosFamily.CORE, vth=MosVth.STD)
+        call = h.Mos(**req)
+        if not P["mos"](call.params):
+            return None
+        for how in ("user-walker-first", "other-pdk-refused-first", "elaborate-first"):
+            top = design(call, depth=2)
+            if how == "user-walker-first":
+                class Counter(h.HierarchyWalker):
+                    def __init__(self):
+                        self.n = 0
+
+                    def visit_primitive_call(self, c):
+                        self.n += 1
+                        return c
+                cw = Counter()
+                cw.visit_elaboratables(top)
+                if cw.n == 0:
+                    return (f"{pname}.history.harness", "counting walker saw no primitive", w)
+            elif how == "other-pdk-refused-first":
+                others = [(n, d) for n, d in pdks().items() if n != pname]
+                unsat = h.Mos(tp=MosType.PMOS, family=MosFamily.NONE, vth=MosVth.ULTRA_LOW, model="NO_SUCH_MODEL")
+                for n, d in others:
+                    t2 = design(unsat, depth=2)
+                    try:
+                        d["compile"](t2)
+                    except Exception:
+                        pass
+                    try:
+                        d["compile"](design(call, depth=2))
+                    except Exception:
+                        pass
+            else:
+                h.elaborate(top)
             try:
                 P["compile"](top)
             except Exception as e:
-                return (f"{pname}.sizes.raises", f"{case!r}: {type(e).__name__}: {str(e)[:100]}", w)
-            dev = [t for pth, t in leaf_targets(top).items() if pth[-1] == "dev"][0]
-            prm = dev.params
-            getp = (lambda n: prm.get(n)) if isinstance(prm, dict) else (lambda n: getattr(prm, n, None))
-            if given and (getp("w") != 3 * h.prefix.µ or getp("l") != 2 * h.prefix.µ):
-                return (f"{pname}.sizes.given", f"{case!r}: given w/l not passed through: w={getp('w')}, l={getp('l')}", w)
-            if not given and pname != "asap7" and (getp("w") is None or getp("l") is None):
-                return (f"{pname}.sizes.default", f"{case!r}: defaulted size missing", w)
+                return (f"{pname}.history.raises", f"{case!r}: {how}: {type(e).__name__}: {str(e)[:100]}", w)
+            devs = [t for pth, t in leaf_targets(top).items() if pth[-1] == "dev"]
+            if not devs or any(not isinstance(t, h.ExternalModuleCall) for t in devs):
+                return (f"{pname}.history.not-replaced", f"{case!r}: after {how}, compile left generic primitives in place", w)
         return None
     if kind == "params":
         # instances that differ only in multiplier / fingers keep their own values; equal ones share one call
@@ -362,6 +431,10 @@ def check_cells(case):
 def run(ctx):
     from contracts import c_walker as cw
     ctx.verify(cw.engine(), cw.VERIFY)
+    from contracts import c_pdksizes
+    for eng, con in c_pdksizes.engines_and_contracts():
+        ctx.verify(eng, [con], min_obligations={con.key: 4})
+    ctx.assumptions.append("use_defaults: scale_param is abstracted as a function of its (non-None) argument")
     bad = cw.audit_walkers()
     ctx.obligations += 1
     if bad:
